@@ -24,7 +24,7 @@ PROFILES = {
     "C05": {"burst": 0.25, "bad": 0.02, "leave": 0.08, "outcome_mix": True},
     "C06": {"burst": 0.25, "bad": 0.02, "leave": 0.04, "outcome_mix": True},
     "C07": {"burst": 0.25, "bad": 0.02, "leave": 0.08, "early_reset": 0.10},
-    "C09": {"burst": 0.25, "bad": 0.25, "leave": 0.03, "out_of_order": 0.3},
+    "C09": {"burst": 0.25, "bad": 0.25, "leave": 0.03, "out_of_order": 0.3, "unprocessable": 0.2},
     "C10": {"burst": 0.25, "bad": 0.03, "leave": 0.20},
     "C16": {"burst": 0.25, "bad": 0.04, "leave": 0.04, "early_reset": 0.2, "twin_session": 0.3, "force_env_some": {"save_trajectories": 0.6}},
     "C18": {"burst": 0.25, "bad": 0.03, "leave": 0.20, "extra_connect": 0.15},
